@@ -79,7 +79,7 @@ def _sym_cmp(self, o, op, fn):
     if isinstance(o, float) and not isinstance(o, st.Sym) and math.isinf(o):
         other = INF if o > 0 else st.mk('neg', INF)
     else:
-        other = st.lift(int(o) if isinstance(o, SymInt) else o)
+        other = st.lift(_v(o) if isinstance(o, SymInt) else o)
     LOG.append(('cmp', self.node, op, other, bool(r)))
     return r
 
@@ -113,6 +113,11 @@ def _inode(x):
     return st.mk('int', x) if x >= 0 else st.mk('neg', st.mk('int', -x))
 
 
+def _v(x):
+    """the plain value of an int / SymInt (without logging a conversion)"""
+    return int.__int__(x)
+
+
 def _isint(x):
     return isinstance(x, int) and not isinstance(x, bool)
 
@@ -129,10 +134,10 @@ class SymInt(int):
         if not _isint(o):
             if isinstance(o, float):
                 LOG.append(('iescape', self.node, 'float arithmetic'))
-                return fn(float(int(self)), o) if not swap else fn(o, float(int(self)))
+                return fn(float(_v(self)), o) if not swap else fn(o, float(_v(self)))
             return NotImplemented
         a, b = (o, self) if swap else (self, o)
-        return SymInt(st.mk(op, _inode(a), _inode(b)), fn(int(a), int(b)))
+        return SymInt(st.mk(op, _inode(a), _inode(b)), fn(_v(a), _v(b)))
 
     def __add__(self, o): return self._bin(o, 'add', lambda x, y: x + y)
     def __radd__(self, o): return self._bin(o, 'add', lambda x, y: x + y, True)
@@ -140,7 +145,7 @@ class SymInt(int):
     def __rsub__(self, o): return self._bin(o, 'sub', lambda x, y: x - y, True)
     def __mul__(self, o): return self._bin(o, 'mul', lambda x, y: x * y)
     def __rmul__(self, o): return self._bin(o, 'mul', lambda x, y: x * y, True)
-    def __neg__(self): return SymInt(st.mk('neg', self.node), -int(self))
+    def __neg__(self): return SymInt(st.mk('neg', self.node), -_v(self))
     def __pos__(self): return self
 
     def _esc(self, what):
@@ -148,7 +153,7 @@ class SymInt(int):
 
     def __abs__(self):
         self._esc('abs')
-        return abs(int(self))
+        return abs(_v(self))
 
     def __pow__(self, o, mod=None):
         if _isint(o) and not isinstance(o, SymInt) and 0 <= o <= 4 and mod is None:
@@ -157,31 +162,31 @@ class SymInt(int):
                 r = r * self
             return r
         self._esc('pow')
-        return pow(int(self), o, mod)
+        return pow(_v(self), o, mod)
 
     def __truediv__(self, o):
         self._esc('/')
-        return int(self) / o
+        return _v(self) / o
 
     def __floordiv__(self, o):
         self._esc('//')
-        return int(self) // o
+        return _v(self) // o
 
     def __mod__(self, o):
         self._esc('%')
-        return int(self) % o
+        return _v(self) % o
 
     def _cmp(self, o, op, fn):
         if not _isint(o):
             if isinstance(o, float):
-                if o == int(o):
+                if math.isfinite(o) and o == int(o):
                     o = int(o)
                 else:
                     self._esc('comparison with a float')
-                    return fn(int(self), o)
+                    return fn(_v(self), o)
             else:
                 return NotImplemented
-        r = fn(int(self), int(o))
+        r = fn(_v(self), _v(o))
         LOG.append(('icmp', self.node, op, _inode(o), bool(r)))
         return r
 
@@ -196,7 +201,7 @@ class SymInt(int):
         return r
 
     def __bool__(self):
-        r = int(self) != 0
+        r = _v(self) != 0
         LOG.append(('icmp', self.node, '!=', st.mk('int', 0), r))
         return r
 
@@ -212,11 +217,17 @@ class SymInt(int):
 
     def __format__(self, spec):
         self._esc('format')
-        return int.__format__(int(self), spec)
+        return int.__format__(_v(self), spec)
 
     def __float__(self):
         self._esc('float')
-        return float(int(self))
+        return float(_v(self))
+
+    def __int__(self):
+        self._esc('int')
+        return _v(self)
+
+    __trunc__ = __int__
 
 
 # ------------------------------------------------------------------------------------------------------------
@@ -408,7 +419,7 @@ class Run:
                 from shelxfile.shelx.cards import PART
                 for k, (a, pv) in enumerate(zip(atoms, parts)):
                     a.part = PART(shx, ['PART', str(pv)])
-                    if int(a.part.n) != pv:
+                    if a.part.n != pv:
                         raise Lost(f'PART({pv}).n is {a.part.n!r}')
                     a.part.n = SymInt(st.mk('var', f'p{k + 1}'), pv)
             LOG.clear()
